@@ -238,8 +238,8 @@ func (kt *Keytab) Unmarshal(b []byte) error {
 			if n < 0 {
 				return fmt.Errorf("%d can't be less than zero", n)
 			}
-			if n+int(l) > len(b) {
-				return fmt.Errorf("byte array length %d is less than %d", len(b), n+int(l))
+			if int(l) > len(b)-n {
+				return fmt.Errorf("byte array length %d is less than the entry length %d at position %d", len(b), l, n)
 			}
 			eb := b[n : n+int(l)]
 			n = n + int(l)
